@@ -19,7 +19,6 @@ package ring
 //@ # the per-entry join of the property statement: newer timestamp wins; at equal timestamps a removal wins
 //@ pred takesOther(t InstanceDesc, o InstanceDesc) = o.Timestamp > t.Timestamp || (o.Timestamp == t.Timestamp && t.State != LEFT && o.State == LEFT)
 //@
-//@ # normalizeIngestersMap / resolveConflicts: only their frames are assumed here (token lists may change, nothing else)
 //@ func Tokens.Less
 //@   property C05
 //@   requires 0 <= i && i < len(t) && 0 <= j && j < len(t)
@@ -43,10 +42,90 @@ package ring
 //@   loop 1 invariant forall n string :: in(n, $coll0) && !$visited0[n] ==> inputRing.Ingesters[n] == $coll0[n]
 //@   loop 1 invariant forall n string :: $visited0[n] && n != $k0 ==> sortedStrict(inputRing.Ingesters[n].Tokens) && (inputRing.Ingesters[n].State == LEFT ==> len(inputRing.Ingesters[n].Tokens) == 0)
 //@   loop 1 invariant ing.State != LEFT && $visited0[$k0] && in($k0, $coll0)
-//@ assume func resolveConflicts
-//@   ensures forall n string :: (in(n, normalizedIngesters) <==> in(n, old(normalizedIngesters))) && (in(n, normalizedIngesters) ==> fieldsEq(normalizedIngesters[n], old(normalizedIngesters)[n]))
+//@ # conflict resolution (C05). beats(m, a, b): claimant a wins over (or is) claimant b: a LEAVING instance loses to
+//@ # one that is not leaving, otherwise the smaller id wins. It is a total order on ids for fixed states (lemmas below),
+//@ # so "the" winner of a token is the unique minimal claimant whatever the map iteration order.
+//@ opaque pred beats(m map[string]InstanceDesc, a string, b string) = (m[a].State != LEAVING && m[b].State == LEAVING) || ((m[a].State == LEAVING) == (m[b].State == LEAVING) && a <= b)
+//@ lemma beatsTotalOrder(m map[string]InstanceDesc, a string, b string, c string)
+//@   property C05
+//@   ensures beats(m, a, a)
+//@   ensures beats(m, a, b) || beats(m, b, a)
+//@   ensures beats(m, a, b) && beats(m, b, a) ==> a == b
+//@   ensures beats(m, a, b) && beats(m, b, c) ==> beats(m, a, c)
+//@
+//@ lemma beatsTrans(m map[string]InstanceDesc, a string, b string)
+//@   property C05
+//@   ensures forall c string :: beats(m, a, b) && beats(m, b, c) ==> beats(m, a, c)
+//@
+//@ func resolveConflicts
+//@   property C05
+//@   # token storage is shared with clones handed to readers (Desc.Clone): never write it in place
+//@   nowrite normalizedIngesters
+//@   requires !isnil(normalizedIngesters)
+//@   ghost var m0 map[string]InstanceDesc = normalizedIngesters
+//@   ghost var opos total[uint32]int = havoc
+//@   ghost var tpos total[uint32]int = havoc
+//@   ghost var npos total[uint32]int = havoc
+//@   ghost var nt int = 0
+//@   ghost var t2i0 map[uint32]string = havoc
+//@   ghost var tk0 []uint32 = havoc
+//@   ghost var owner map[uint32]string = havoc
+//@   ensures frame: forall n string :: (in(n, normalizedIngesters) <==> in(n, old(normalizedIngesters))) && (in(n, normalizedIngesters) ==> fieldsEq(normalizedIngesters[n], old(normalizedIngesters)[n]))
 //@   ensures isnil(normalizedIngesters) == isnil(old(normalizedIngesters))
-//@ assume func conflictingTokensExist
+//@   # no token is held by two entries afterwards, every list is strictly sorted, removed entries hold none
+//@   ensures unique: forall k1, k2 string, a, b int :: in(k1, normalizedIngesters) && in(k2, normalizedIngesters) && k1 != k2 && 0 <= a && a < len(normalizedIngesters[k1].Tokens) && 0 <= b && b < len(normalizedIngesters[k2].Tokens) ==> normalizedIngesters[k1].Tokens[a] != normalizedIngesters[k2].Tokens[b]
+//@   ensures sorted: forall k string :: in(k, normalizedIngesters) ==> sortedStrict(normalizedIngesters[k].Tokens)
+//@   ensures left: forall k string :: in(k, normalizedIngesters) && old(normalizedIngesters)[k].State == LEFT ==> len(normalizedIngesters[k].Tokens) == 0
+//@   # tokens only ever stay with one of their claimants (witness opos: the position in the claimant's old list)
+//@   at exit: assert back: forall k string :: in(k, m0) ==> in(k, normalizedIngesters) && same(normalizedIngesters[k].Tokens, newTokenLists[k])
+//@   at exit: assert owned: forall k string, a int :: in(k, normalizedIngesters) && 0 <= a && a < len(normalizedIngesters[k].Tokens) ==> in(normalizedIngesters[k].Tokens[a], owner) && owner[normalizedIngesters[k].Tokens[a]] == k
+//@   at exit: assert first: forall k string :: in(k, normalizedIngesters) && len(normalizedIngesters[k].Tokens) > 0 ==> in(normalizedIngesters[k].Tokens[0], owner) && owner[normalizedIngesters[k].Tokens[0]] == k && m0[k].State != LEFT
+//@   at exit: assert kept: forall k string, a int :: in(k, normalizedIngesters) && 0 <= a && a < len(normalizedIngesters[k].Tokens) ==> m0[k].State != LEFT && 0 <= opos[normalizedIngesters[k].Tokens[a]] && opos[normalizedIngesters[k].Tokens[a]] < len(m0[k].Tokens) && m0[k].Tokens[opos[normalizedIngesters[k].Tokens[a]]] == normalizedIngesters[k].Tokens[a]
+//@   # every claimed token ends up with the claimant that beats every other claimant (witnesses owner, npos)
+//@   at exit: assert winner: forall k string, i int :: in(k, m0) && m0[k].State != LEFT && 0 <= i && i < len(m0[k].Tokens) ==> in(m0[k].Tokens[i], owner) && in(owner[m0[k].Tokens[i]], normalizedIngesters) && beats(m0, owner[m0[k].Tokens[i]], k) && 0 <= npos[m0[k].Tokens[i]] && npos[m0[k].Tokens[i]] < len(normalizedIngesters[owner[m0[k].Tokens[i]]].Tokens) && normalizedIngesters[owner[m0[k].Tokens[i]]].Tokens[npos[m0[k].Tokens[i]]] == m0[k].Tokens[i]
+//@   # loop 1: claimants (outer), loop 2: their tokens (inner)
+//@   loop 1 invariant same(normalizedIngesters, m0) && same($coll, m0) && len(tokens) >= 0
+//@   loop 1 invariant own: forall t int :: in(t, tokenToIngester) ==> in(tokenToIngester[t], m0) && $visited[tokenToIngester[t]] && m0[tokenToIngester[t]].State != LEFT && 0 <= opos[t] && opos[t] < len(m0[tokenToIngester[t]].Tokens) && m0[tokenToIngester[t]].Tokens[opos[t]] == t
+//@   loop 1 invariant min: forall k string, i int :: $visited[k] && in(k, m0) && m0[k].State != LEFT && 0 <= i && i < len(m0[k].Tokens) ==> in(m0[k].Tokens[i], tokenToIngester) && beats(m0, tokenToIngester[m0[k].Tokens[i]], k)
+//@   loop 1 invariant lst: forall t int :: in(t, tokenToIngester) ==> 0 <= tpos[t] && tpos[t] < len(tokens) && tokens[tpos[t]] == t
+//@   loop 1 invariant inj: forall i int :: 0 <= i && i < len(tokens) ==> in(tokens[i], tokenToIngester) && tpos[tokens[i]] == i
+//@   loop 2 head nt := len(tokens)
+//@   loop 2 head t2i0 := tokenToIngester
+//@   loop 2 end opos := tokenToIngester[token] == ingKey ? store(opos, token, $i - 1) : opos
+//@   loop 2 end assert w0: in(token, tokenToIngester)
+//@   loop 2 end assert w1: beats(m0, tokenToIngester[token], ingKey)
+//@   loop 2 end assert w2: in(token, t2i0) ==> beats(m0, tokenToIngester[token], t2i0[token])
+//@   loop 2 end assert rest: forall t int :: t != token ==> (in(t, tokenToIngester) <==> in(t, t2i0)) && (in(t, t2i0) ==> tokenToIngester[t] == t2i0[t])
+//@   loop 2 end use beatsTrans(m0, tokenToIngester[token], t2i0[token])
+//@   loop 2 end tpos := len(tokens) > nt ? store(tpos, token, len(tokens) - 1) : tpos
+//@   loop 2 invariant same(normalizedIngesters, m0) && same($coll1, m0) && len(tokens) >= 0 && in(ingKey, m0) && same(ing, m0[ingKey]) && ing.State != LEFT && $visited1[ingKey] && ingKey == $k1
+//@   loop 2 invariant own: forall t int :: in(t, tokenToIngester) ==> in(tokenToIngester[t], m0) && $visited1[tokenToIngester[t]] && m0[tokenToIngester[t]].State != LEFT && 0 <= opos[t] && opos[t] < len(m0[tokenToIngester[t]].Tokens) && m0[tokenToIngester[t]].Tokens[opos[t]] == t
+//@   loop 2 invariant min: forall k string, i int :: $visited1[k] && in(k, m0) && m0[k].State != LEFT && 0 <= i && i < len(m0[k].Tokens) && (k != ingKey || i < $i) ==> in(m0[k].Tokens[i], tokenToIngester) && beats(m0, tokenToIngester[m0[k].Tokens[i]], k)
+//@   loop 2 invariant lst: forall t int :: in(t, tokenToIngester) ==> 0 <= tpos[t] && tpos[t] < len(tokens) && tokens[tpos[t]] == t
+//@   loop 2 invariant inj: forall i int :: 0 <= i && i < len(tokens) ==> in(tokens[i], tokenToIngester) && tpos[tokens[i]] == i
+//@   at before@sort.Sort: tk0 := tokens
+//@   at after@sort.Sort: owner := tokenToIngester
+//@   at after@sort.Sort: assert strict: sortedStrict(tokens)
+//@   at after@sort.Sort: assert all: forall t int :: in(t, owner) ==> 0 <= sortpos(tk0, tokens, tpos[t]) && sortpos(tk0, tokens, tpos[t]) < len(tokens) && tokens[sortpos(tk0, tokens, tpos[t])] == t
+//@   at after@sort.Sort: assert dom: forall i int :: 0 <= i && i < len(tokens) ==> in(tokens[i], owner)
+//@   # loop 3: every entry starts with the nil list
+//@   loop 3 invariant same(normalizedIngesters, m0) && same($coll, m0) && !isnil(newTokenLists)
+//@   loop 3 invariant forall k string :: in(k, newTokenLists) <==> $visited[k]
+//@   loop 3 invariant forall k string :: in(k, newTokenLists) ==> len(newTokenLists[k]) == 0
+//@   # loop 4: hand the sorted, duplicate-free tokens to their winners
+//@   loop 4 end npos := store(npos, token, len(newTokenLists[key]) - 1)
+//@   loop 4 invariant same(normalizedIngesters, m0) && same(tokenToIngester, owner) && same($coll, tokens) && !isnil(newTokenLists)
+//@   loop 4 invariant forall k string :: in(k, newTokenLists) <==> in(k, m0)
+//@   loop 4 invariant mine: forall k string, a int :: in(k, newTokenLists) && 0 <= a && a < len(newTokenLists[k]) ==> in(newTokenLists[k][a], owner) && owner[newTokenLists[k][a]] == k && ($i < len(tokens) ==> newTokenLists[k][a] < tokens[$i])
+//@   loop 4 invariant forall k string :: in(k, newTokenLists) ==> sortedStrict(newTokenLists[k])
+//@   loop 4 invariant placed: forall p int :: 0 <= p && p < $i ==> 0 <= npos[tokens[p]] && npos[tokens[p]] < len(newTokenLists[owner[tokens[p]]]) && newTokenLists[owner[tokens[p]]][npos[tokens[p]]] == tokens[p]
+//@   # loop 5: write the lists back
+//@   loop 5 invariant same($coll, newTokenLists) && !isnil(normalizedIngesters)
+//@   loop 5 invariant forall n string :: (in(n, normalizedIngesters) <==> in(n, m0)) && (in(n, m0) ==> fieldsEq(normalizedIngesters[n], m0[n]))
+//@   loop 5 invariant forall n string :: in(n, m0) ==> ($visited[n] ? same(normalizedIngesters[n].Tokens, newTokenLists[n]) : same(normalizedIngesters[n], m0[n]))
+//@ func conflictingTokensExist
+//@   property C05
+//@   nowrite normalizedIngesters
 //@   modifies nothing
 //@
 //@ func NewDesc
@@ -55,6 +134,8 @@ package ring
 //@
 //@ func Desc.mergeWithTime
 //@   property C03 C04 C05
+//@   # the receiver's token storage is shared with clones handed to readers: entries are replaced, never written in place
+//@   nowrite d
 //@   requires !isnil(d.Ingesters)
 //@   ghost var d0 map[string]InstanceDesc = d.Ingesters
 //@   ghost var upd set[string] = emptyset("")
